@@ -263,6 +263,19 @@ def mon_c07(case, obs, prefix):
             s = o["sends"] or []
             if len(s) != 1 or s[0]["type"] != "hbrsp" or s[0]["seq"] != ev["seq"] or s[0]["dst"] != ev["peer"]:
                 bad.append((i, "Heartbeat Request not answered"))
+    # "sessions not addressed by the offending messages are intact": the frame rules of C05 (histories without a scripted
+    # driver panic: an aborted request is judged by the model comparison)
+    if not bad and not any(ev.get("panic") for ev in case["events"]):
+        bad += [(i, "sessions not addressed must stay intact: " + m) for i, m in mon_c05(case, obs, prefix)]
+    return bad
+
+
+def mon_c08x(case, obs, prefix):
+    """C08 plus: the UP F-SEID returned by a successful establishment addresses that session from then on - nothing but its
+    own deletion, its node's re-association or its own peer's SEID-0 report response may end it (the frame rules of C05)"""
+    bad = mon_c08(case, obs, prefix)
+    if not bad:
+        bad += [(i, "the F-SEID must go on addressing its session: " + m) for i, m in mon_c05(case, obs, prefix)]
     return bad
 
 
@@ -901,6 +914,20 @@ def mon_c12(case, obs, prefix):
             for ie in ies:
                 if not ie["trig"] & IMMER:
                     bad.append((i, "report for queried URR %d is not marked as immediate report" % ie["urr"]))
+            # lower bound from the independent life-cycle: a URR the SMF created and has not removed, installed in the data
+            # plane, whose query the data plane answers with a report, yields an immediate report in the response - whether
+            # or not a PDR currently names it
+            if all(r["urr"] == u_["id"] for u_ in ev.get("usage", []) for r in u_["rpts"]):
+                got = {(ie["urr"], ie["trig"]) for ie in ies}
+                done = set()
+                for u in ops["qURR"]:
+                    if u is None or u in done or u not in have_before.get(m["seid"], set()) or (KIDX["urr"], u) not in indp \
+                            or ("query", "urr", u) in fails:
+                        continue
+                    done.add(u)
+                    rs = usage.get(("query", u), [])
+                    if rs and (u, (rs[0]["trig"] | IMMER) % (1 << 24)) not in got:
+                        bad.append((i, "Query URR %d: the data plane returned a report, the response does not carry it as an immediate report" % u))
     return bad
 
 
